@@ -146,18 +146,106 @@ def member_iteration_sites(prog):
     return fixed
 
 
-def is_skip_filter(prog, consumer):
-    """consumer == Iterator::filter(_, |x| !utils::should_skip(&x.attrs))"""
+def loop_item(b, site_term):
+    """for `for x in SITE {..}`: (next-call bb, item term, Some-arm bb) of the loop driven by the iterator made from site_term, or None"""
+    for nbb, nc in b.calls():
+        if b.callee_decl(nc) != "core::iter::traits::iterator::Iterator::next":
+            continue
+        itv = unref(b.operand_term(nc["args"][0]))
+        if itv[0] != "var":
+            continue
+        ini = b.var_init(itv[1])
+        if len(ini) != 1:
+            continue
+        it = ini[0]
+        while is_call(it, "into_iter", nargs=1) and it != site_term:
+            it = it[2][0]
+        if it != site_term and unref(it) != site_term:
+            continue
+        tgt = nc["target"]
+        if tgt is None or b.blocks[tgt]["term"]["k"] != "switch":
+            continue
+        sw = b.blocks[tgt]["term"]
+        some_t = [a[1] for a in sw["arms"] if a[0] == "1"]
+        if not some_t:
+            continue
+        nterm = b.call_term(nc, bb=nbb)
+        item = ("field", ("downcast", nterm, 1, "Some"), 0, "0", "core::option::Option")
+        return nbb, item, some_t[0]
+    return None
+
+
+def skip_guard_in_loop(prog, b, site_term):
+    """loop form of `.filter(|x| !should_skip(&x.attrs))`: in `for x in SITE`, should_skip(&x.attrs) is tested and everything else that touches x
+    lies on the not-skipped side.  Returns (ok, why, not_skip_bb or None)."""
+    li = loop_item(b, site_term)
+    if li is None:
+        return False, "iterator is consumed by <nothing / an unrecognised loop>, not by filter(!should_skip)", None
+    nbb, item, some_bb = li
+    tests = []
+    for bb, t in b.calls():
+        if mir.strip_generics(b.callee_name(t)) != D + "utils::should_skip":
+            continue
+        ap = paths.access_path(b, b.operand_term(t["args"][0]), roots=[item])
+        if ap is not None and ap[0] == item and paths.norm(ap[1]).endswith(".attrs") and b.dominates(some_bb, bb):
+            tests.append((bb, t))
+    if len(tests) != 1:
+        return False, "the loop over the members tests should_skip(&member.attrs) %d times" % len(tests), None
+    tbb, tt = tests[0]
+    sw = b.blocks[tt["target"]]["term"] if tt["target"] is not None else None
+    if not sw or sw["k"] != "switch" or b.operand_term(sw["discr"]) != b.place_term(tt["dest"]):
+        return False, "the result of should_skip is not branched on", None
+    zero = [a[1] for a in sw["arms"] if a[0] == "0"]
+    if not zero:
+        return False, "unexpected branch shape", None
+    keep = zero[0]           # should_skip == false
+    # every other use of the item is on the keep side
+    for bb, t in b.calls():
+        if bb == tbb or bb == nbb:
+            continue
+        for a in t["args"]:
+            at = b.operand_term(a)
+            if any(x == item for x in mir.walk(at)) and not b.dominates(keep, bb) and not b.dominates(bb, tbb):
+                return False, "the member is also used in bb%d, which is not guarded by !should_skip" % bb, None
+    return True, "for x in members { if should_skip(&x.attrs) { continue } .. }", keep
+
+
+def is_skip_filter(prog, consumer, body=None, site=None):
+    """consumer == Iterator::filter(_, p) where p(x) is false whenever utils::should_skip(&x.attrs) (p is a closure or a function; decided by
+    interpreting p under the scenario should_skip = true); or, with `body`/`site`, the equivalent guard inside a `for` loop"""
+    from ..lib import absint
+    if consumer is None and body is not None and site is not None:
+        ok, why, _ = skip_guard_in_loop(prog, body, site)
+        return ok, why
     if consumer is None or not is_call(consumer, "core::iter::traits::iterator::Iterator::filter", nargs=2):
         return False, "iterator is consumed by %s, not by filter(!should_skip)" % (consumer[1]["name"] if consumer else "<nothing / a loop>")
     cl, ups = mir.closure_of(consumer[2][1])
-    cb = prog.body(cl) if cl else None
-    if cb is None:
-        return False, "filter predicate is not a closure literal"
-    rt = cb.return_term()
-    if rt[0] == "unop" and rt[1] == "Not" and is_call(rt[2], D + "utils::should_skip", nargs=1):
-        ap = paths.access_path(cb, rt[2][2][0])
-        if ap is not None and ap[0] == ("arg", 2, cb.names.get(2)) and paths.norm(ap[1]).endswith(".attrs"):
-            return True, "filter(|x| !should_skip(&x.attrs))"
-        return False, "should_skip is applied to %s, not to the iterated member's attrs" % path_str(rt[2][2][0])
-    return False, "filter predicate is %s" % path_str(rt)[:120]
+    f = unref(consumer[2][1])
+    if cl:
+        pb = prog.body(cl)
+        env = {1: ("tuple", [absint.Sym("up%d" % i) for i in range(len(ups))]), 2: absint.Sym("item")}
+    elif f[0] == "fn" and f[3] in prog._bodies_raw:
+        pb = prog.body(f[3])
+        env = {1: absint.Sym("item")}
+    else:
+        return False, "filter predicate is neither a closure nor a crate-local function"
+    seen = []
+
+    def h(name, args, t):
+        if mir.strip_generics(name) == D + "utils::should_skip" and len(args) == 1:
+            seen.append(args[0])
+            return True
+        if name.split("::")[-1] in ("deref", "as_slice", "as_ref", "borrow") and len(args) == 1:
+            return args[0]
+        return None
+    try:
+        r = absint.run(pb, 0, env, call=h, prog=prog, inline=True)
+    except absint.Unrecognised as e:
+        return False, "filter predicate cannot be interpreted: %s" % e
+    if not seen:
+        return False, "filter predicate never asks should_skip"
+    if any(getattr(x, "name", None) != "item.attrs" for x in seen):
+        return False, "should_skip is applied to %s, not to the iterated member's attrs" % [getattr(x, "name", x) for x in seen]
+    if r is False or r == 0:
+        return True, "filter(p) with p(x) = false whenever should_skip(&x.attrs)"
+    return False, "filter predicate keeps a member although should_skip(&member.attrs) is true (result %r)" % (r,)
